@@ -295,6 +295,13 @@ func runCut(c driver.Case) driver.Result {
 				return res
 			}
 		}
+		// operators that deliver fewer values than they receive (buffers, pairs, every n-th…) get more
+		// input until the observer has had its prefix-th callback and unsubscribed inside it
+		for v := prefix; kind == "inside-next" && !insideDone.Load() && v < prefix+8; v++ {
+			if bb.srcs[0].IsSubscribed() && bb.srcs[0].Live.Load() > 0 && !send(bb.srcs[0], src.Notif{K: rec.Next, V: 1 + v%2}) {
+				return res
+			}
+		}
 		if kind == "inside-terminal" {
 			k := rec.Complete
 			if c.Get("end") == "E" {
